@@ -5,8 +5,15 @@ package main
 import (
 	"bytes"
 	"context"
+	"crypto/ecdsa"
+	"crypto/elliptic"
+	"crypto/rand"
+	"crypto/tls"
+	"crypto/x509"
+	"crypto/x509/pkix"
 	"fmt"
 	"io"
+	"math/big"
 	"net"
 	"sort"
 	"strings"
@@ -17,6 +24,7 @@ import (
 
 	"google.golang.org/grpc"
 	"google.golang.org/grpc/codes"
+	"google.golang.org/grpc/credentials"
 	"google.golang.org/grpc/credentials/insecure"
 	"google.golang.org/grpc/interop/grpc_testing"
 	"google.golang.org/grpc/metadata"
@@ -55,6 +63,7 @@ type c16Backend struct {
 	open    int64
 	srv     *grpc.Server
 	addr    string
+	tls     bool // serve TLS (self-signed) instead of h2c
 }
 
 type countListener struct {
@@ -81,6 +90,27 @@ func (c *countConn) Close() error {
 	return c.Conn.Close()
 }
 
+var c16CertOnce sync.Once
+var c16CertVal tls.Certificate
+
+// c16Cert returns a throw-away self-signed certificate for a TLS backend.
+func c16Cert() *tls.Certificate {
+	c16CertOnce.Do(func() {
+		key, err := ecdsa.GenerateKey(elliptic.P256(), rand.Reader)
+		if err != nil {
+			panic(err)
+		}
+		tmpl := &x509.Certificate{SerialNumber: big.NewInt(1), Subject: pkix.Name{CommonName: "c16"}, NotBefore: time.Now().Add(-time.Hour), NotAfter: time.Now().Add(24 * time.Hour),
+			KeyUsage: x509.KeyUsageDigitalSignature, ExtKeyUsage: []x509.ExtKeyUsage{x509.ExtKeyUsageServerAuth}, IPAddresses: []net.IP{net.ParseIP("127.0.0.1")}}
+		der, err := x509.CreateCertificate(rand.Reader, tmpl, tmpl, &key.PublicKey, key)
+		if err != nil {
+			panic(err)
+		}
+		c16CertVal = tls.Certificate{Certificate: [][]byte{der}, PrivateKey: key}
+	})
+	return &c16CertVal
+}
+
 func newC16Backend(name string) *c16Backend {
 	b := &c16Backend{name: name}
 	b.start("127.0.0.1:0")
@@ -100,7 +130,11 @@ func (b *c16Backend) start(addr string) {
 		panic("VERIF-INFRA: " + err.Error())
 	}
 	b.addr = l.Addr().String()
-	b.srv = grpc.NewServer(grpc.MaxRecvMsgSize(16<<20), grpc.MaxSendMsgSize(16<<20))
+	sopts := []grpc.ServerOption{grpc.MaxRecvMsgSize(16 << 20), grpc.MaxSendMsgSize(16 << 20)}
+	if b.tls {
+		sopts = append(sopts, grpc.Creds(credentials.NewServerTLSFromCert(c16Cert())))
+	}
+	b.srv = grpc.NewServer(sopts...)
 	grpc_testing.RegisterTestServiceServer(b.srv, b)
 	go b.srv.Serve(countListener{l, b})
 }
@@ -240,7 +274,7 @@ func newC16Rig() *c16Rig {
 	cfg.Proxy.GRPCGShutdownTimeout = 20 * time.Millisecond
 	p := metrics.DiscardProvider{}
 	stats := &proxy.GrpcStatsHandler{Connect: p.NewCounter("c"), Request: p.NewHistogram("r"), NoRoute: p.NewCounter("n"), Status: p.NewHistogram("s", "code")}
-	r.proxy = grpc.NewServer(newGrpcProxy(cfg, nil, stats)...)
+	r.proxy = grpc.NewServer(newGrpcProxy(cfg, &tls.Config{}, stats)...)
 	l, err := net.Listen("tcp", "127.0.0.1:0")
 	if err != nil {
 		panic(err)
@@ -575,16 +609,26 @@ func TestVerifC16Calls(t *testing.T) {
 // connection reuse and clean-up across table changes (explicit-state BFS)
 func c16History(r *c16Rig) {
 	L := ev.Begin("C16", "c16-history", "model_checking",
-		"explicit-state BFS on the same real stack: state = (backend B in the table?, pooled connection to A?, to B?); events: call routed to A, call routed to B (dsthost), remove / re-add backend B in the table, one pass of the pool's clean-up loop (its time.Sleep is owned by the harness), backend B restart; invariants: a call to a routed backend succeeds, one to an unrouted backend gets NotFound without contacting it; at most one connection per backend while it stays routed and up (accept counter at the backend); after B left the table and a clean-up pass its connection is closed; a call after re-adding B succeeds. non-trivial = transition that changes the table or needs a (re)connect")
+		"explicit-state BFS on the same real stack: state = (backend B in the table?, pooled connection to A?, to B?); events: call routed to A, call routed to B (dsthost), remove / re-add backend B in the table, one pass of the pool's clean-up loop (its time.Sleep is owned by the harness), backend B restart, backend B redeployed on the same address with the other transport (grpc:// <-> grpcs://, table follows); invariants: a call to a routed backend succeeds, one to an unrouted backend gets NotFound without contacting it; at most one connection per backend while it stays routed and up (accept counter at the backend); after B left the table and a clean-up pass its connection is closed; a call after re-adding B succeeds. non-trivial = transition that changes the table or needs a (re)connect")
 	host := "grpc.example"
 	both := func() string {
+		if r.b.tls {
+			return fmt.Sprintf("route add svcA /grpc.testing.TestService grpc://%s opts \"proto=grpc\"\nroute add svcB %s/grpc.testing.TestService grpcs://%s opts \"proto=grpcs tlsskipverify=true\"\n", r.a.addr, host, r.b.addr)
+		}
 		return fmt.Sprintf("route add svcA /grpc.testing.TestService grpc://%s opts \"proto=grpc\"\nroute add svcB %s/grpc.testing.TestService grpc://%s opts \"proto=grpc\"\n", r.a.addr, host, r.b.addr)
 	}
 	onlyA := func() string {
 		return fmt.Sprintf("route add svcA /grpc.testing.TestService grpc://%s opts \"proto=grpc\"\n", r.a.addr)
 	}
 	type state struct{ bRouted bool }
-	events := []string{"call-A", "call-B", "remove-B", "add-B", "cleanup", "restart-B"}
+	events := []string{"call-A", "call-B", "remove-B", "add-B", "cleanup", "restart-B", "flip-B-tls"}
+	restartB := func(tlsOn bool) {
+		addr := r.b.addr
+		r.b.srv.Stop()
+		waitFor(func() bool { return atomic.LoadInt64(&r.b.open) == 0 })
+		r.b.tls = tlsOn
+		r.b.start(addr)
+	}
 	maxDepth := 3
 	if ev.Thorough() {
 		maxDepth = 4
@@ -610,6 +654,9 @@ func c16History(r *c16Rig) {
 		route.SetTable(make(route.Table))
 		r.cleanupPass()
 		waitFor(func() bool { return atomic.LoadInt64(&r.a.open) == 0 && atomic.LoadInt64(&r.b.open) == 0 })
+		if r.b.tls {
+			restartB(false)
+		}
 		r.setTable(both())
 		st := state{true}
 		accA, accB := atomic.LoadInt64(&r.a.accepts), atomic.LoadInt64(&r.b.accepts)
@@ -706,14 +753,20 @@ func c16History(r *c16Rig) {
 					connB = false
 				}
 			case "restart-B":
-				addr := r.b.addr
-				r.b.srv.Stop()
-				waitFor(func() bool { return atomic.LoadInt64(&r.b.open) == 0 })
-				r.b.start(addr)
+				restartB(r.b.tls)
+				restarted = true
+				L.NontrivialKey(fmt.Sprint(names))
+			case "flip-B-tls":
+				// the service behind B is redeployed on the same address with the other
+				// transport (h2c <-> TLS) and the table follows: grpc://B <-> grpcs://B
+				restartB(!r.b.tls)
+				if st.bRouted {
+					r.setTable(both())
+				}
 				restarted = true
 				L.NontrivialKey(fmt.Sprint(names))
 			}
-			states[fmt.Sprint(st, connA, connB)] = true
+			states[fmt.Sprint(st, connA, connB, r.b.tls)] = true
 		}
 		if len(h) == maxDepth && h[0] == 1 && h[1] == 2 {
 			L.Sample(map[string]interface{}{"history": names})
